@@ -1199,6 +1199,57 @@ func c16CtxFlow(r *core.Report) {
 						return true
 					})
 				}
+				// the flag that add*ToSpec returned for an object goes with everything that hangs below
+				// that object
+				if stronger == "" {
+					ast.Inspect(d.Body, func(m ast.Node) bool {
+						as, ok := m.(*ast.AssignStmt)
+						if !ok || as.Tok != token.DEFINE || len(as.Lhs) != 1 || len(as.Rhs) != 1 || as.End() > c.Pos() {
+							return true
+						}
+						ac, ok := ast.Unparen(as.Rhs[0]).(*ast.CallExpr)
+						if !ok || len(ac.Args) == 0 {
+							return true
+						}
+						af := core.CalleeOf(info, ac)
+						if af == nil || !strings.HasPrefix(af.Name(), "add") || !strings.HasSuffix(af.Name(), "ToSpec") {
+							return true
+						}
+						lid, ok := as.Lhs[0].(*ast.Ident)
+						if !ok {
+							return true
+						}
+						obj := core.RootIdent(ac.Args[0])
+						if obj == nil || len(c.Args) == 0 {
+							return true
+						}
+						// does the data handed to the deref call come from that object?
+						fromObj := false
+						for o := range ff.Roots(c.Args[0], false).Objs {
+							if o == info.ObjectOf(obj) {
+								fromObj = true
+							}
+						}
+						if !fromObj {
+							return true
+						}
+						// ... and not from a part that has a flag of its own (p.Schema vs p.Content)
+						if core.ExprStr(ac.Args[0]) != obj.Name && !strings.Contains(core.ExprStr(c.Args[0]), core.ExprStr(ac.Args[0])) {
+							return true
+						}
+						mentions := false
+						ast.Inspect(arg, func(k ast.Node) bool {
+							if id, ok := k.(*ast.Ident); ok && info.ObjectOf(id) == info.ObjectOf(lid) {
+								mentions = true
+							}
+							return true
+						})
+						if !mentions {
+							stronger = lid.Name
+						}
+						return true
+					})
+				}
 				if stronger != "" {
 					r.Bad(key, p.Pos(c.Pos()), fmt.Sprintf("%s hands its own context %s down to %s although it has computed %s for the object at hand (= %s || the object is itself an external reference): what hangs below an object pulled in from another document is walked as if it belonged to this one, and its `#/components/...` references are left pointing at the wrong document's components", core.FuncName(d), ctx.Name(), f.Name(), stronger, ctx.Name()))
 				} else if ctxInherits(info, ff, arg, ctx, 0) {
